@@ -124,13 +124,16 @@ def valid_transmissions(trans, hist, adj, I0, tmin, inducing=1, from_status=0, t
             return 'entry %d: %d -> %d is not an edge of the network (in edge direction)' % (k, s, g)
         hs, hg = hist[s], hist[g]
         tc = t + 1 if discrete else t
-        # source infectious at time t (closed interval ending at its own change)
-        st_s = status_at(hs, t)
-        if st_s != inducing:
-            # allowed: the source changes away from the inducing status exactly at t
-            before = [x for x in hs if x[0] < t]
-            if not (before and before[-1][1] == inducing and any(C.close(x[0], t) for x in hs)):
-                return 'entry %d: source %d does not have the inducing status at time %r (history %r)' % (k, s, t, hs)
+        # source infectious at time t: t lies in a CLOSED interval during which the source has the
+        # inducing status (a transmission at exactly the source's own change counts, DESIGN C09)
+        ok_src = False
+        for i, (ts, ss) in enumerate(hs):
+            if ss == inducing:
+                te = hs[i + 1][0] if i + 1 < len(hs) else float('inf')
+                if (ts <= t or C.close(ts, t)) and (t <= te or C.close(t, te)):
+                    ok_src = True; break
+        if not ok_src:
+            return 'entry %d: source %d does not have the inducing status at time %r (history %r)' % (k, s, t, hs)
         chg = [i for i, x in enumerate(hg) if C.close(x[0], tc) and x[1] == to_status]
         if not chg:
             return 'entry %d: target %d does not change to status %d at %r (history %r)' % (k, g, to_status, tc, hg)
